@@ -82,13 +82,14 @@ Proof.
   rewrite of_i64_Bof. destruct (Bof z); cbn in *; try reflexivity. contradiction Hne. reflexivity.
 Qed.
 
+(* below 2^53 the conversion loses nothing: the class of pairs that the old eq_lossy confused is empty there, and
+   integer == agrees with == on the converted floats *)
 Lemma int_eq_exact_small a b : Z.abs a <= 2 ^ 53 -> Z.abs b <= 2 ^ 53 ->
-  known_int_eq a b = false /\ eq_lossy (VInt a) (VInt b) = (a =? b) /\ cmp_consistent (VInt a) (VInt b).
+  known_int_eq a b = false /\ eq_lossy (VInt a) (VInt b) = eq_lossy (VFloat (of_i64 a)) (VFloat (of_i64 b)).
 Proof.
-  intros Ha Hb.
-  assert (known_int_eq a b = false) as Hk.
-  { unfold known_int_eq. rewrite (f_eq_small a b Ha Hb). destruct (a =? b); reflexivity. }
-  split; [exact Hk|]. split; [apply int_eq_exact | apply int_consistent]; exact Hk.
+  intros Ha Hb. split.
+  - unfold known_int_eq. rewrite (f_eq_small a b Ha Hb). destruct (a =? b); reflexivity.
+  - cbn. symmetry. apply (f_eq_small a b Ha Hb).
 Qed.
 
 (* float / integer and mod(float, integer) = the float operation on the converted integer, for every i64 *)
